@@ -266,23 +266,22 @@ func (p *Prog) resolveRole(role string) (*ssa.Function, error) {
 		return one(role, c)
 
 	case "resolver":
+		// executes converters (calls the executor without being the exported Call); plans paths (shortest-path search)
 		ex, err := p.Role("executor")
 		if err != nil {
 			return nil, err
 		}
+		call, _ := p.Role("Call")
 		var c []*ssa.Function
 		for _, f := range arg {
-			if p.callsFn(f, ex) && p.callsFn(f, f) {
+			if f == call || f == ex {
+				continue
+			}
+			if p.callsFn(f, ex) {
 				c = append(c, f)
 			}
-		}
-		if len(c) == 0 {
-			// non-recursive variant: caller of executor that is not the exported Call
-			call, _ := p.Role("Call")
-			for _, f := range arg {
-				if p.callsFn(f, ex) && f != call {
-					c = append(c, f)
-				}
+			if len(Calls(f, GDijkstra)) > 0 {
+				c = append(c, f)
 			}
 		}
 		return one(role, c)
@@ -338,7 +337,11 @@ func (p *Prog) resolveRole(role string) (*ssa.Function, error) {
 		}
 		ex, _ := p.Role("executor")
 		var c []*ssa.Function
-		for _, call := range Calls(res) {
+		var resCalls []ssa.CallInstruction
+		for _, g := range p.stepFuncs(res) {
+			resCalls = append(resCalls, Calls(g)...)
+		}
+		for _, call := range resCalls {
 			cal := call.Common().StaticCallee()
 			if cal == nil || !p.InTarget(cal) || cal == ex || cal == res {
 				continue
@@ -552,25 +555,34 @@ func (p *Prog) IsHashcodeCall(v ssa.Value) (*ssa.Call, bool) {
 // plannerRegionInstrs visits the planner and the helper-like functions only it calls (role resolution cannot use
 // Region, which itself depends on the resolved roles).
 func (p *Prog) plannerRegionInstrs(pl *ssa.Function, fn func(ssa.Instruction)) {
-	seen := map[*ssa.Function]bool{pl: true}
-	work := []*ssa.Function{pl}
+	for _, g := range p.stepFuncs(pl) {
+		Instrs(g, fn)
+	}
+}
+
+// stepFuncs: f, its literals, and the helper-like functions only f (or one of those) calls.
+func (p *Prog) stepFuncs(f *ssa.Function) []*ssa.Function {
+	seen := map[*ssa.Function]bool{f: true}
+	var out []*ssa.Function
+	work := []*ssa.Function{f}
 	for len(work) > 0 {
-		f := work[len(work)-1]
+		h := work[len(work)-1]
 		work = work[:len(work)-1]
-		for _, g := range WithNested(f) {
-			Instrs(g, fn)
+		for _, g := range WithNested(h) {
+			out = append(out, g)
 			for _, ci := range Calls(g) {
 				cal := ci.Common().StaticCallee()
 				if cal == nil || seen[cal] {
 					continue
 				}
-				if caller, ok := p.helperLike(cal); ok && caller == pl {
+				if caller, ok := p.helperLike(cal); ok && seen[caller] {
 					seen[cal] = true
 					work = append(work, cal)
 				}
 			}
 		}
 	}
+	return out
 }
 
 // driverCallees: the static callees of f and of the helper-like step functions that only f calls (f was split into
